@@ -84,6 +84,9 @@ def load_batch(ctx, entries, o, what, watchdog=10):
         if idx >= len(todo):
             break
         oom = "out of memory" in p.stderr or "cannot allocate" in p.stderr
+        if not oom and not re.search(r"^(panic:|fatal error:)", p.stderr, re.M):
+            # killed from outside (OOM killer, SIGTERM, ...): no Go panic/fatal message -> not a verdict
+            raise Infra("bk-load died without a Go panic message (rc=%s): %s" % (p.returncode, p.stderr[-300:]))
         ev = dict(todo[idx])
         ev.update({"e": "Load", "outcome": "slow" if oom else "panic", "msg": p.stderr.strip().splitlines()[0][:200] if p.stderr.strip() else "process died",
                    "items": [], "count": 0})
@@ -118,6 +121,9 @@ def damage_run(ctx, base, genres, o, nproc, extra=(), what="dmg"):
             n, kind, f, off, pat = begins[-1]
             oom = "out of memory" in p.stderr or "cannot allocate" in p.stderr
             first = [x for x in p.stderr.splitlines() if x.startswith(("panic:", "fatal error:"))]
+            if not first and not oom:
+                # killed from outside (OOM killer, SIGTERM, ...): no Go panic/fatal message -> not a verdict
+                raise Infra("bk-damage died without a Go panic message (rc=%s) at case %s: %s" % (p.returncode, n, p.stderr[-300:]))
             evs.append({"e": "Damage", "case": int(n), "file": f, "kind": kind, "off": int(off), "pat": int(pat), "class": "?",
                         "descr": [], "conc": o.get("conc", 2), "delta": bool(o.get("delta")),
                         "outcome": "slow" if oom else "panic", "msg": (first[0] if first else "process died")[:200], "items": [], "count": 0})
